@@ -85,7 +85,7 @@ def gen_cases(tier, seed):
             for m in ms:
                 for c in ('none', 'zlib@openssh.com', 'zlib'):
                     combos.append((e, m, c))
-        per = 14
+        per = 30
 
     space = [(d, j, op) for d in (C2S, S2C) for j in INDEXES for op in OPS]
     cases = []
@@ -112,7 +112,7 @@ def gen_cases(tier, seed):
               ('chacha20-poly1305@openssh.com', 'hmac-sha1', True),
               ('aes256-cbc', 'hmac-sha2-512-etm@openssh.com', False),
               ('3des-cbc', 'hmac-sha1-96', False)]
-    nrk = 120 if tier == 'quick' else 1500
+    nrk = 120 if tier == 'quick' else 5000
     for i in range(nrk):
         e, m, a = suites[i % len(suites)]
         cases.append({'enc': e, 'mac': m, 'aead': a,
